@@ -47,6 +47,12 @@ type symstr struct {
 	c []value
 }
 
+// symf64 is a symbolic non-negative, non-NaN float64 given by its IEEE-754 bits (for such values
+// the numeric order equals the unsigned order of the bit patterns). Only comparisons are supported.
+type symf64 struct {
+	bits *Term
+}
+
 // symAddr is a pointer to cells[idx] for a symbolic idx already known to be in range.
 type symAddr struct {
 	cells []value
@@ -298,7 +304,12 @@ func (i *interpreter) eqv(t types.Type, x, y value) value {
 		return x == y
 	case float32:
 		return x == y.(float32)
+	case symf64:
+		return i.termVal(i.tt.Eq(x.bits, i.floatBits(y)))
 	case float64:
+		if ys, ok := y.(symf64); ok {
+			return i.termVal(i.tt.Eq(i.floatBits(x), ys.bits))
+		}
 		return x == y.(float64)
 	case complex64:
 		return x == y.(complex64)
